@@ -9,24 +9,19 @@ mod util;
 mod isa;
 mod refvm;
 mod report;
-#[cfg(any(feature = "std", feature = "stdlite"))]
 mod sys;
-#[cfg(any(feature = "std", feature = "stdlite"))]
 mod engines;
-#[cfg(any(feature = "std", feature = "stdlite"))]
 mod hlp;
-#[cfg(any(feature = "std", feature = "stdlite"))]
 mod genp;
-#[cfg(any(feature = "std", feature = "stdlite"))]
 mod exec;
-#[cfg(any(feature = "std", feature = "stdlite"))]
 mod diff;
 #[cfg(feature = "std")]
 mod mon_exec;
-#[cfg(any(feature = "std", feature = "stdlite"))]
 mod mon_c06;
-#[cfg(any(feature = "std", feature = "stdlite"))]
 mod mon_text;
+mod mon_c20;
+#[cfg(any(feature = "std", feature = "stdlite"))]
+mod mon_c19;
 
 pub struct Args {
     pub prop: String,
@@ -83,24 +78,20 @@ fn main() {
         println!("{}", report::merge_hashes(&files));
         return;
     }
-    #[cfg(any(feature = "std", feature = "stdlite"))]
     sys::install_panic_hook();
     let mut rep = report::Report::new(&a.prop, &a.variant);
     let t0 = std::time::Instant::now();
     match a.prop.as_str() {
         #[cfg(feature = "std")]
         "C01" | "C03" | "C04" => mon_exec::run(&a.prop.clone(), &a, &mut rep),
-        #[cfg(any(feature = "std", feature = "stdlite"))]
         "C06" => mon_c06::run(&a, &mut rep),
         #[cfg(any(feature = "std", feature = "stdlite"))]
+        "C19" => mon_c19::run(&a, &mut rep),
+        "C20" => mon_c20::run(&a, &mut rep),
         "C13" => mon_text::run_c13(&a, &mut rep),
-        #[cfg(any(feature = "std", feature = "stdlite"))]
         "C14" => mon_text::run_c14(&a, &mut rep),
-        #[cfg(any(feature = "std", feature = "stdlite"))]
         "C15" => mon_text::run_c15(&a, &mut rep),
-        #[cfg(any(feature = "std", feature = "stdlite"))]
         "C16" => mon_text::run_c16(&a, &mut rep),
-        #[cfg(any(feature = "std", feature = "stdlite"))]
         "C17" => mon_text::run_c17(&a, &mut rep),
         #[cfg(feature = "std")]
         "dbg-long" => {
